@@ -444,6 +444,22 @@ def obligations(r, tier, seed):
             obs.append(Ob("C15/optimize-frame/%s/iters=%d" % (name, iters), opt, funcs=FUNCS, solver="functional", light=not name.startswith("SE3"),
                           scope="shape-bounded", bound="graph %s, %d iterations" % (name, iters), max_paths=512))
 
+    # ---- optimize() with information matrices that are NOT symmetric (nothing says they must be; g2o files cannot hold them, code can):
+    #      the edges' arrays are untouched, whatever the options' defaults
+    def opt_asymmetric(k):
+        r_ = k.r
+        ghost = common.Ghost()
+        vs = [r_.Vertex(0, k.pose("R2", "a")), r_.Vertex(1, k.pose("R2", "b")), r_.Vertex(2, k.pose("SE2", "c"))]
+        es = [r_.EdgeOdometry([0, 1], k.matrix("O1", 2, 2), k.pose("R2", "z1")), r_.EdgeLandmark([2, 1], k.matrix("O2", 2, 2), k.pose("R2", "z2"), k.pose("SE2", "off"), 0),
+              r_.EdgeLandmark([0, 1], k.matrix("O3", 2, 2), k.pose("R2", "z3"), k.pose("R2", "off2"), 0)]
+        g = r_.Graph(es, vs)
+        fr = Frame(k, [], es)
+        with common.counting_spsolve(k, ghost), common.patched(k.r.Graph, calc_chi2=lambda self: _cut(self, k)):
+            g.optimize(tol=k.nonneg("tol"), max_iter=1, verbose=False)
+        fr.unchanged("after optimize() on a graph with non-symmetric information matrices: edges")
+    obs.append(Ob("C15/optimize-frame/non-symmetric-information", opt_asymmetric, funcs=FUNCS, solver="functional", light=True,
+                  scope="shape-bounded", bound="one 3-vertex R2/SE2 graph, 1 iteration", max_paths=512))
+
     # ---- interleavings of queries
     n_seq = 3 if tier == "quick" else 10
     length = 12 if tier == "quick" else 50
